@@ -397,8 +397,11 @@ def gen_topology(rng, ground=None, perturb=True, curves=True):
             w['taper'] = [rng.choice([1, 2, 3]), None, None]
     rng.shuffle(wires)
     # tolerance as the code will see it (equal segmentation only; good enough to aim)
-    seglens = [math.dist(w['p1'], w['p2']) / w['nseg'] for w in wires if w['type'] == 'wire']
-    tol = 1e-3 * min(seglens)
+    # a lower bound of the shortest segment (a tapered wire halves its segments towards the tapered end), so that
+    # "less than the tolerance" stays less for every pair of ends of a junction and the closeness of ends stays
+    # an equivalence relation (otherwise "joined exactly when closer" is not well defined)
+    seglens = [math.dist(w['p1'], w['p2']) / (w['nseg'] if not w.get('taper') else 2 ** w['nseg']) for w in wires if w['type'] == 'wire']
+    tol = 1e-3 * min(seglens) * (0.25 if any(w['type'] != 'wire' for w in wires) else 1.0)
     if perturb:
         for w in wires:
             if w['type'] != 'wire':
@@ -406,7 +409,7 @@ def gen_topology(rng, ground=None, perturb=True, curves=True):
             for key in ('p1', 'p2'):
                 if rng.random() < 0.3 and not (ground and w[key][2] == 0):
                     d = _unit(rng)
-                    mag = tol * rng.choice([0.3, 0.3, 0.45, 3.0])
+                    mag = tol * rng.choice([0.3, 0.3, 0.45, 3000.0 if any(x.get('taper') or x['type'] != 'wire' for x in wires) else 3.0])
                     w[key] = [w[key][i] + d[i] * mag for i in range(3)]
     mode = rng.choice(['none', 'explicit', 'gaps', 'perm', 'mixed'])
     k = len(wires)
